@@ -108,3 +108,24 @@ class Violations:
 
     def classes(self):
         return len(self.by_key)
+
+
+def guarded(pid):
+    """Decorator for case functions returning None | 'skip' | (key, detail): an exception raised while the harness
+    inspects what the implementation returned (a missing operation, an unexpected type ...) is reported as a violation
+    of that case - the implementation produced something the property's observation points cannot even read - instead
+    of crashing the whole check."""
+    import functools
+    import traceback
+
+    def deco(f):
+        @functools.wraps(f)
+        def w(*a, **k):
+            try:
+                return f(*a, **k)
+            except (IndexError, KeyError, TypeError, AttributeError, ValueError, AssertionError) as e:
+                tb = traceback.extract_tb(e.__traceback__)
+                where = "%s:%d" % (tb[-1].filename.split("/")[-1], tb[-1].lineno) if tb else "?"
+                return ("%s/unexpected-result-structure:%s" % (pid, type(e).__name__), "%s: %s at %s" % (type(e).__name__, str(e)[:150], where))
+        return w
+    return deco
